@@ -525,6 +525,23 @@ def run_cross(ctx, spec):
           3, 70000, 5]:
         ctx.violation('cross-curve-batchdl', '%s: BatchDL after searches on '
                       'other curves returned %r' % (name, res), {'curve': name})
+  # long argument lists (beyond 256 / 512 entries) on two curves
+  for name in rng.sample(NAMED, 2):
+    if not ctx.want('long/' + name):
+      continue
+    rc, mc = curves[name]
+    cmp_ = Cmp(ctx, name)
+    ks = [rng.below(mc.n) for _ in range(rng.choice([257, 513, 700]))]
+    ks[rng.below(len(ks))] = 0
+    ks[-1] = ks[0]
+    got = call(ctx, 'BatchMultiplyG', rc.BatchMultiplyG, list(ks))
+    ctx.count('long_lists')
+    if got is not None:
+      if len(got) != len(ks):
+        ctx.violation('BatchMultiplyG-length', '%d results for %d scalars' % (
+            len(got), len(ks)), {'curve': name})
+      for k, g_ in zip(ks, got):
+        cmp_.pt('BatchMultiplyG', g_, mc.mulg(k), (k, 'long-list'))
   ctx.sample({'curves_in_one_process': len(curves), 'rounds': spec['rounds']})
 
 
@@ -548,7 +565,7 @@ def finalize(agg, tier):
   for k in ('op:Add', 'op:AddJacobian', 'op:BatchMultiplyG', 'op:BatchAddList',
             'op:BatchAddSubtractX', 'op:Multiply', 'op:PointTable',
             'lists_with_zero_denominator', 'curve_constant_facts',
-            'small_batches', 'cross_curve_calls',
+            'small_batches', 'cross_curve_calls', 'long_lists',
             'openssl_crosschecks'):
     if not c.get(k):
       inc.append('reach counter %s is zero' % k)
